@@ -120,6 +120,8 @@ class SortedVocabulary : public base::Vocabulary {
     template <class T> void GenericFinished(T *reorder);
 
     uint64_t *begin_, *end_;
+    // Room for this many words, set by SetupMemory.
+    std::size_t capacity_;
 
     WordIndex bound_;
 
